@@ -87,7 +87,7 @@ def judge_column(ctx, tag, Lam_col, Fn_col, Xi_col, Phi_col, fn, xi, Phi, lam, t
             ef = abs(Fn_col[i] - fn[k]) / fn[k]
             ex = abs(Xi_col[i] - xi[k])
             em = 1 - gen.mac(Phi_col[i], shape)
-            en = abs(np.max(np.abs(Phi_col[i])) - 1)
+            en = float(gen.unit_component_error(Phi_col[i])[0])
             worst["f"] = max(worst["f"], ef)
             worst["x"] = max(worst["x"], ex)
             worst["mac"] = max(worst["mac"], em)
@@ -95,7 +95,7 @@ def judge_column(ctx, tag, Lam_col, Fn_col, Xi_col, Phi_col, fn, xi, Phi, lam, t
                 ctx.fail(f"{sigp}:accuracy", f"{tag}: mode {k} f={fn[k]:.6g} xi={xi[k]:.4g}: err lam={el:.2e} f={ef:.2e} xi={ex:.2e} 1-MAC={em:.2e} tol={tol:.1e}")
                 ok = False
             if not en <= 1e-12:
-                ctx.fail(f"{sigp}:normalisation", f"{tag}: max|phi|={np.max(np.abs(Phi_col[i]))!r} not 1")
+                ctx.fail(f"{sigp}:normalisation", f"{tag}: largest-magnitude component is {Phi_col[i][np.argmax(np.abs(Phi_col[i]))]!r}, not 1")
                 ok = False
     ctx.maxi(f"{tag}: worst error / tolerance", max(worst.values()) / tol)
     ctx.maxi(f"{tag}: worst error", max(worst.values()))
